@@ -44,6 +44,18 @@ add("C01",
     "An executable big-step semantics of the States Language (Spec/AslSem.v: all eight state types, Retry with per-retrier counters, Catch, nesting) is the specification; Coq theorems fix what it says (Pass applies InputPath, Parameters, Result, ResultPath into the raw input, OutputPath in that order; Fail reports its Error; Succeed ends; Choice follows the rules of C14; fan-out results in order). Every run executes ~270 (quick) / ~1500 (thorough) random machines plus a directed corpus on the real engine (canonical FIFO schedule, task behaviour fixed per (function, payload, attempt)) and compares status and output with the semantics inside Coq. That the event-driven engine refines the semantics for ALL machines is not proved (correspondence only): partial.",
     "Trusted: Coq kernel + vm_compute; the data plane inside the semantics is the model validated by C12-C14; harness/sim.py; Cause texts not compared; when two branches of one fan-out fail with different errors the reported error is left open. Known findings F16 (in-band Error), F22 (nested fan-out with a failure).",
     "Executable Coq semantics + theorems about it; real executions compared with it in Coq (refinement by correspondence, not proved)", "DESIGN.md section 6 (C01)")
+add("C02",
+    "Coq theorems over Model/Protocol.v, a transition system of the engine's control plane for machines without fan-out (deliver / timer / worker / reply steps over queue, held events, requests, replies, records, notifications, history, acknowledgements), for every schedule, every decision of the data plane and any number of concurrent executions, by an inductive invariant: per execution one RUNNING notification then at most one terminal one; the stored status is the last one notified; after the terminal notification no step notifies, logs or changes the record; a RUNNING execution always has an enabled step. Every sequential run of the campaign is replayed on the model effect by effect (the tie), and monitors for the same clauses plus the record clauses (stopDate/output/error/cause iff status; record frozen once terminal, sampled after every step) are evaluated in Coq on ~400 (quick) / ~3100 (thorough) real runs including Parallel/Map machines under random schedules. Fan-out is outside the model: monitors only - partial there.",
+    "Trusted: Coq kernel + vm_compute; hand-written Model/Protocol.v tied by exact replay of real runs; harness/sim.py (simulated fabric, virtual clock); StartSyncExecution / child launches are C15's. Known finding F22 (nested fan-out with a failure).",
+    "Coq proof (inductive invariant over a protocol model) + replay correspondence + Coq-evaluated monitors on real traces", "DESIGN.md section 6 (C02)")
+add("C03",
+    "Coq theorems over Model/Protocol.v (machines without fan-out; all schedules, decisions, numbers of executions): in every handler invocation the acknowledgement is the last effect - nothing is published, recorded or notified after it; no event is ever acknowledged twice and an acknowledged event is never queued or held again; a RUNNING execution is carried by exactly one queued or unacknowledged event and a terminal one by none; the carrier can always move (no deadlock). The model is tied to the engine by exact replay of real runs; the same clauses plus the drain clause (no unacked message, queued event, timer, branch_metadata, pending request, canceller, orphaned reply at quiescence) are monitored in Coq on ~400 / ~3100 real runs incl. Parallel/Map under random schedules. Fan-out joins are outside the model: monitors only - partial there.",
+    "Trusted: Coq kernel + vm_compute; hand-written Model/Protocol.v tied by replay; harness/sim.py; timers are not unique in the model's invariant (progress is stated as 'some step is enabled'); poison messages are C18's. Known finding F22.",
+    "Coq proof (inductive invariant over a protocol model) + replay correspondence + Coq-evaluated monitors on real traces", "DESIGN.md section 6 (C03)")
+add("C09",
+    "Coq theorems: in Model/Protocol.v (machines without fan-out, all schedules) every execution's history begins with a single ExecutionStarted, has at most one terminal event which is last and of the kind that was notified and recorded, and nothing is appended after it; numbering by position gives ids 1..n with previousEventId = id-1 for every list. GetExecutionHistory (both orders, both front ends) and DescribeExecution of ~480 / ~2900 real executions (incl. Parallel/Map, failures, retries, EXPRESS) are checked in Coq: numbering, non-decreasing timestamps, exact reversal, first event carries the input, last event agrees with DescribeExecution, exits never exceed entries, output of a state = input of the next (sequential machines), EXPRESS stores nothing; the history store is sampled after every step and must only grow by appending.",
+    "Trusted: Coq kernel + vm_compute; Model/Protocol.v tied by replay; payload comparison by interned JSON text; virtual clock; per-state Entered/Exited consistency for fan-out is by monitor only. Known finding F22.",
+    "Coq proof (invariant over protocol model) + API observations checked by Coq oracles", "DESIGN.md section 6 (C09)")
 DONE = [c["property_id"] for c in checks]
 m = {
  "version": 1,
